@@ -24,6 +24,9 @@ def F(n): return {"k": "f", "n": n}
 def TY(n): return F(n) if n in ("float", "double") else T(n)
 def flit(n, neg, mag): return {"k": "flit", "t": F(n), "neg": bool(neg), "mag": mag if isinstance(mag, list) else w8(mag)}
 def P(t): return {"k": "p", "t": t}
+def FP(ret, ps): return {"k": "fp", "ret": ret, "ps": ps}
+def fnref(n, t): return {"k": "fnref", "n": n, "t": t}
+def s_alloca(n, t, length): return {"k": "alloca", "n": n, "t": t, "len": length}
 def A(t, n): return {"k": "a", "t": t, "n": n}
 def St(i): return {"k": "s", "id": i}
 
@@ -86,8 +89,10 @@ def s_continue(): return {"k": "continue"}
 def s_case(v): return {"k": "case", "v": w8(v)}
 def s_default(): return {"k": "default"}
 def s_switch(e, body): return {"k": "switch", "e": e, "body": body}
-def s_call(f, args, l=None):
+def s_call(f, args, l=None, fe=None):
     d = {"k": "call", "f": f, "args": args}
+    if fe is not None:
+        d["fe"] = fe
     if l is not None:
         d["l"] = l
     return d
@@ -116,6 +121,8 @@ def ctype(t, structs, inner=""):
         return (t["n"] + " " + inner).rstrip()
     if t["k"] == "s":
         return ("struct %s %s" % (structs[t["id"] - 1]["name"], inner)).rstrip()
+    if t["k"] == "fp":
+        return ctype(t["ret"], structs, "(*%s)(%s)" % (inner, ", ".join(ctype(q, structs) for q in t["ps"]) or "void"))
     if t["k"] == "p":
         sub = "*" + inner
         if t["t"]["k"] == "a":
@@ -149,6 +156,8 @@ def rexpr(e, structs):
     r = lambda x: rexpr(x, structs)
     if k == "lit":
         return rlit(e)
+    if k == "fnref":
+        return e["n"]
     if k == "flit":
         m = from_w8(e["mag"], signed=False)
         return "(%s%d.0%s)" % ("-" if e["neg"] else "", m, "f" if e["t"]["n"] == "float" else "")
@@ -210,6 +219,8 @@ def rstmt(s, structs, ind=1):
         if "init" in s:
             d += " = " + rinit(s["init"], structs)
         return t + d + ";\n"
+    if k == "alloca":
+        return t + "%s = __builtin_alloca(sizeof(%s) * (%s));\n" % (ctype({"k": "p", "t": s["t"]}, structs, s["n"]), ctype(s["t"], structs), r(s["len"]))
     if k == "vla":
         return t + ctype(s["t"], structs, "%s[%s]%s" % (s["n"], r(s["len"]), "[%s]" % r(s["len2"]) if "len2" in s else "")) + ";\n"
     if k == "block":
@@ -247,7 +258,7 @@ def rstmt(s, structs, ind=1):
     if k == "switch":
         return t + "switch (%s) {\n" % r(s["e"]) + "".join(rstmt(x, structs, ind + 1) for x in s["body"]) + t + "}\n"
     if k == "call":
-        c = "%s(%s)" % (s["f"], ", ".join(r(a) for a in s["args"]))
+        c = "%s(%s)" % (r(s["fe"]) if "fe" in s else s["f"], ", ".join(r(a) for a in s["args"]))
         return t + ("%s = %s;\n" % (r(s["l"]), c) if "l" in s else c + ";\n")
     if k == "va_arg":
         return t + "%s = __builtin_va_arg(ap__, %s);\n" % (r(s["l"]), ctype(s["t"], structs))
